@@ -364,22 +364,16 @@ theorem stageJson_targets (u : Nat) (sub : Bool) (p : Patch) (orig : Obj) (env :
 /-- every request of a call is one of the four, with the payload the patch dictates -/
 def ReqShape (sub : Bool) (p : Patch) (r : Req) : Prop :=
   (r.kind = .mergeBody ∧ r.payload = .merge (bodyPart sub p.fields) ∧ (bodyPart sub p.fields).isEmpty = false) ∨
-  (r.kind = .mergeStatus ∧ sub = true ∧ ∃ v, lookup "status" p.fields = some v ∧ v ≠ null ∧ r.payload = .merge [("status", v)]) ∨
+  (r.kind = .mergeStatus ∧ sub = true ∧ ∃ v, lookup "status" p.fields = some v ∧ r.payload = .merge [("status", v)]) ∨
   (r.kind = .jsonBody ∧ ∃ t fi sb, r.payload = .json t fi sb ∧ (sub = true → sb = none)) ∨
   (r.kind = .jsonStatus ∧ sub = true ∧ ∃ t v, r.payload = .json t none (some v))
 
 theorem statusPart_some {sub : Bool} {fields : Kvs} {v : J} (h : statusPart sub fields = some v) :
-    sub = true ∧ lookup "status" fields = some v ∧ v ≠ null := by
+    sub = true ∧ lookup "status" fields = some v := by
   unfold statusPart at h
   cases sub with
   | false => simp at h
-  | true =>
-    simp only [if_true] at h
-    split at h
-    · cases h
-    · rename_i hnn
-      refine ⟨rfl, h, ?_⟩
-      intro e; subst e; exact hnn h
+  | true => simpa using h
 
 theorem doReq_shape (sub : Bool) (p : Patch) (env : Env) (k : Kind) (pl : Payload) (st : St)
     (h : ∀ r ∈ st.reqs, ReqShape sub p r)
@@ -429,9 +423,9 @@ theorem patch_shape (sub : Bool) (p : Patch) (orig : Obj) (env : Env) (s : Serve
       unfold stageMergeStatus
       split
       · rename_i v hv
-        obtain ⟨hs, hl, hn⟩ := statusPart_some hv
+        obtain ⟨hs, hl⟩ := statusPart_some hv
         apply doReq_shape _ _ _ _ _ _ h1
-        intro r hk hp; right; left; exact ⟨hk, hs, v, hl, hn, hp⟩
+        intro r hk hp; right; left; exact ⟨hk, hs, v, hl, hp⟩
       · exact h1
   · intro st h
     unfold stageJson
